@@ -7,7 +7,7 @@ from ..trace import split_units
 ID = "C09"
 LEVEL = "exploration"
 WORLDS = [(1, "plain")]
-BUDGET = {"quick": dict(cases=1000), "thorough": dict(cases=20000)}
+BUDGET = {"quick": dict(cases=2000), "thorough": dict(cases=60000)}
 MIN_NONTRIVIAL = {"quick": 2000, "thorough": 30000}
 BLOB = (400, 1500)
 RULE = ("Hypothesis byte-backed generator: tables of 2-9 commands from shared stems in 1-3 groups (handler subsets, 0-2 variables with callbacks, only_test, "
